@@ -33,10 +33,11 @@ ASSUMPTIONS = ['datasets with >=2 spikes/templates/channels/samples (squeeze deg
 
 @st.composite
 def _case(draw):
-    spec = draw(D.dataset_spec(nan=True, probe_labels=True))
+    spec = draw(D.dataset_spec(nan=True, probe_labels=True, raw_parent=True))
     reads = [[draw(st.integers(0, spec['n_raw'] - 1)), draw(st.integers(1, 12))] for _ in range(3)]
     return {'spec': spec, 'nonmono': draw(st.integers(0, 4)) == 0, 'reads': reads,
-            'decoy': draw(st.booleans()), 'dirname': draw(st.sampled_from(DIRNAMES))}
+            'decoy': draw(st.booleans()), 'dirname': draw(st.sampled_from(DIRNAMES)),
+            'via_symlink': draw(st.integers(0, 3)) == 0}
 
 
 # directory names are the user's: blanks, brackets and other characters that mean something to
@@ -103,8 +104,14 @@ def check(case):
             info['nonmono'] = True
         T = D.build(spec, d / case.get('dirname', 'ds'))
         before = D.sha_dir(T.dir)
+        if case.get('via_symlink'):
+            # the dataset is reached through a symbolic link that lives somewhere else
+            (d / 'shortcuts' / 'deeper').mkdir(parents=True)
+            link = d / 'shortcuts' / 'deeper' / 'current'
+            os.symlink(str(T.dir), str(link), target_is_directory=True)
+            T.params_path = link / 'params.py'
         cwd = os.getcwd()
-        if T.raw is not None and case.get('decoy'):
+        if T.raw is not None and case.get('decoy') and spec['raw'].get('where') != 'parent':
             # another session's folder with equally named raw files is the current directory
             decoy = d / 'other_session'
             decoy.mkdir()
@@ -251,6 +258,10 @@ def classify(case, info):
     sw = []
     if case.get('dirname', 'ds') != 'ds':
         labels.append('special-characters-in-directory-name')
+    if case.get('via_symlink'):
+        labels.append('opened-through-a-symlinked-directory')
+    if s['raw'] and s['raw'].get('where') == 'parent':
+        labels.append('raw-data-in-parent-directory')
     if s['naming'] == 'alf':
         sw.append('alf')
     if s['col2d']:
